@@ -91,6 +91,8 @@ def run_shards(prop: str, tier: str, seed: int, nshards: int, timeout_s: float, 
     env["PYTHONPATH"] = str(VERIF_ROOT)
     env[common.GUARD] = "1"
     env["PYTHONDONTWRITEBYTECODE"] = "1"
+    # shards keep their scratch under this run's directory: whatever happens to a shard (watchdog, kill), the run removes it
+    env["VERIF_SCRATCH_BASE"] = str(outdir)
     procs = []
     for i in range(nshards):
         out = outdir / f"shard{i}.json"
